@@ -223,6 +223,26 @@ def s7(ctx):
                     key = e.d.get('idx')
                     kinds = tuple(sorted(str(x.val) for x in (values_in(key) if key is not None else []) if x.is_const))
                     kind_tables.setdefault(name, set()).add((tuple(tab), kinds))
+    # the container directory stays below the cache directory: os.path.join restarts at an absolute component, so a
+    # caller-supplied name may reach it only as pieces of a split on '/' (a piece cannot be absolute) or stripped of
+    # leading separators
+    for name in ('cache', 'deque', 'index'):
+        f = ctx.method('FanoutCache', name)
+        bad, njoin = None, 0
+        for p in ctx.paths(f, 'default'):
+            for e in p.trace:
+                if e.kind == 'EXT' and e.d['name'] == 'os.path.join' and e.d['args'] and \
+                        any(x.k == 'selfattr' for x in values_in(e.d['args'][0])):
+                    njoin += 1
+                    for a in e.d['args'][1:]:
+                        if not _join_piece_relative(a, p.trace):
+                            bad = (e, a)
+        obs.append(Ob('S7', 'FanoutCache.%s/directory-below-cache-directory' % name, bad is None and njoin > 0,
+                      'FanoutCache.%s joins the caller-supplied name to the cache directory as %s: a name with a leading '
+                      'separator makes os.path.join discard the cache directory and the kind prefix, so containers of '
+                      'different kinds (and of different caches) share one database outside the cache directory'
+                      % (name, bad[1] if bad else '<no os.path.join on self._directory found>'),
+                      bad[0].loc() if bad else f.loc()))
     # the three kinds do not share entries: different tables, or keys that include the kind
     clash = None
     names = sorted(kind_tables)
@@ -235,6 +255,26 @@ def s7(ctx):
                   'asking for a deque called like an existing index returns the index' % (clash,),
                   ctx.method('FanoutCache', 'cache').loc()))
     return obs
+
+
+def _join_piece_relative(a, tr):
+    """A non-first os.path.join argument that cannot be an absolute path whatever the caller passes."""
+    if a.is_const:
+        return isinstance(a.val, str) and not a.val.startswith(('/', '\\'))
+    inner = a.a[0] if a.k == 'star' else a
+    if inner.k == 'tuple':
+        return all(_join_piece_relative(x, tr) for x in inner.a[0])
+    if not any(x.k == 'param' for x in deep_values(inner, tr)):
+        return True
+    if inner.k == 'mcall' and isinstance(inner.a[1], int):
+        ev = tr[inner.a[1]]
+        args = ev.d['args']
+        sep_arg = bool(args) and args[0].is_const and isinstance(args[0].val, str) and '/' in args[0].val
+        if a.k == 'star' and inner.a[0] in ('split', 'rsplit') and sep_arg and args[0].val == '/':
+            return True
+        if a.k != 'star' and inner.a[0] in ('lstrip', 'strip') and sep_arg:
+            return True
+    return False
 
 
 def _subscript_bases(node):
